@@ -186,9 +186,12 @@ Definition nopanic_op (o : apiop) : Prop :=
 
 (* what the scenario has to provide: every collection is an acquirable root whose blocking acquisitions satisfy the
    condition of the call that makes them *)
+(* the flavours that wait: lock / read / write and scoped_lock / scoped_read; the try flavours never do *)
+Definition blocking_flavour (f : flavour) : bool := match f with FGuard | FScoped _ _ => true | _ => false end.
+
 Definition env_ok (e : env) : Prop :=
   forall c s, coll e c = Some s ->
-    acquirable s = true /\ forall m f, alg_ok (blk (AAcquire c m f)) m (alg_of (e_am e) s).
+    acquirable s = true /\ forall m f, blocking_flavour f = true -> alg_ok (blk (AAcquire c m f)) m (alg_of (e_am e) s).
 
 Lemma tb_key lc H K : TB lc H K -> haskey lc = true -> guard lc = None /\ H = [] /\ K = true.
 Proof.
@@ -238,7 +241,7 @@ Proof.
     { intros f'. cbn [api_fin]. split; [|reflexivity]. cbn [fst]. destruct f'; cbn [is_lent]; apply tb_none; auto. }
     destruct f as [| |lent body|lent body]; injection E as <-.
     + (* guard *)
-      apply wp_with_key. apply wp_then. apply wp_raw_lock; [exact AOK|apply FUEL|].
+      apply wp_with_key. apply wp_then. apply wp_raw_lock; [apply AOK; reflexivity|apply FUEL|].
       intros H' P. apply wp_then. apply wp_see_all. apply wp_poison_result; cbn [api_fin]; rewrite Ec; fin_nostop; cbn [fst];
         unfold TB; cbn [guard haskey]; (split; [eapply held_perm; eassumption|auto]).
     + (* try *)
@@ -250,7 +253,7 @@ Proof.
     + (* scoped *)
       apply wp_scoped_rest.
       * rewrite gleaves_gitems. now apply alg_refs_leaves.
-      * intros Qr' Qt' Q. apply wp_raw_lock; [exact AOK|apply FUEL|exact Q].
+      * intros Qr' Qt' Q. apply wp_raw_lock; [apply AOK; reflexivity|apply FUEL|exact Q].
       * cbn [api_fin]. fin_nostop. cbn [fst]. apply tb_none; [reflexivity|]. destruct lent; [reflexivity|discriminate].
       * cbn [api_fin is_lent]. fin_nostop. cbn [fst]. apply tb_none; [reflexivity|]. destruct lent; [reflexivity|discriminate].
       * exact ZN.
